@@ -507,14 +507,13 @@ class List(BlockToken):
         next_marker = None
         matches = []
         while True:
-            anchor = lines.get_pos()
-            output, next_marker = ListItem.read(lines, next_marker)
-            item_leader = output[3]
-            if leader is None:
-                leader = item_leader
-            elif not cls.same_marker_type(leader, item_leader):
-                lines.set_pos(anchor)
+            if next_marker is not None and not cls.same_marker_type(leader, next_marker[2]):
+                # a marker of another type begins a new list: leave its item unread
+                # (reading it just to discard it would keep the link reference definitions it contains)
                 break
+            output, next_marker = ListItem.read(lines, next_marker)
+            if leader is None:
+                leader = output[3]
             matches.append(output)
             if next_marker is None:
                 break
